@@ -193,7 +193,8 @@ func Walk(v IVisitor, n INode) {
 
 		Walk(v, n.Extends)
 
-		for _, item := range n.List {
+		for i := 0; i < len(n.List); i++ {
+			item := &n.List[i]
 			if item.StaticBlock != nil {
 				Walk(v, item.StaticBlock)
 			} else if item.Method != nil {
